@@ -63,6 +63,16 @@ func init() {
 		RequiredFired:  []string{"corrupt_bitflip", "corrupt_truncate", "corrupt_length-field", "corrupt_delete-file", "corrupt_other-segments-file", "corrupt_header-field", "corrupt_index-entry"},
 		QuickS:         45, ThoroughS: 600,
 	}
+	propSpecs["C12"] = &PropSpec{
+		ID: "C12",
+		Rule: "two kinds of runs. (a) aliasing: one writer and 1-4 reader tasks as in C06, entries on both sides of the 64 KiB pooled read buffer; every log returned by GetLog is checksummed at return and re-checksummed at the end of the run, after later reads (of this and other tasks, interleaved by the scheduler) recycled the pooled buffers. (b) codec identity: sequential programs on a directory created with the default or a custom codec ID (2^16, 2^16+1, 2^40, MaxUint64), with codec probes between operations and after a crash: Open with a different custom ID and with the default codec must be refused and leave nothing open or locked (real bolt flock probed with a timeout in a third of the runs), a reserved ID (1..65535) must be rejected before any storage call, the same codec must reopen and read back the model's entries. " +
+			"By-product: every entry flowing through any run is compared field by field (generator biased to varint boundaries, all LogTypes incl. 255, nil vs empty slices, 64 KiB neighbourhood, zero time / zone offsets). The isolated Encode/Decode equality is a pure function and is not decided by simulation. " +
+			"Non-trivial = a read overlapped a write (a) or a codec probe ran (b); distinct = interleaving hashes / op-sequence signatures.",
+		Components:     compA + "; a third of the codec-identity runs use the real metadb.BoltMetaDB + bbolt on tmpfs",
+		Assumptions:    []string{"pure Encode->Decode equality over all field values is not a simulation question; it is covered only as a by-product"},
+		RequiredProbes: []string{"wrong_codec_refused", "reserved_codec_rejected", "same_codec_reopened", "reads_overlapping_a_write", "append_ge_64KiB_acked"},
+		QuickS:         45, ThoroughS: 600,
+	}
 	propSpecs["C14"] = &PropSpec{
 		ID: "C14",
 		Rule: "each run = a seeded WAL with 1-4 batches (so several segments exist and a rotation may be pending), then a tape-chosen set of racing tasks - an appender (2-6 batches), 0-3 readers (GetLog/FirstIndex/LastIndex), a stable-store client - and the closer, which calls Close after a tape-chosen number of scheduling steps; the scheduler orders Close's flag swap, lock acquisition, state swap and finalizer against every other task's hook points (after each closed-check, between state load and reference, before each lock / rotation wait) and seam calls. " +
